@@ -2,13 +2,13 @@
 from __future__ import annotations
 
 from .. import gen
-from ..common import q, uncps, cps, canon
+from ..common import q, uncps, cps, canon, rec
 from ..progprop import ProgramProperty, Getter, have, is_exc, init_step
 
 
 class C12(ProgramProperty):
     id = "C12"
-    theorems = ["C12_transitive_iff", "C12_upgrade", "C12_remap_records", "C12_rewire_records", "C12_rewire_unknown", "C12_rewire_idem"]
+    theorems = ["C12_transitive_iff", "C12_upgrade", "C12_remap_records", "C12_rewire_records", "C12_rewire_unknown", "C12_rewire_idem", "C12_rewire_ok", "C12_remap_ok"]
     lean_modules = ["CuriesVerif.Properties.C12"]
     rule = ("one case = one strict converter (default delimiter), one injective URI-prefix mapping and one injective "
             "rewiring of 1-3 pairs: keys are canonical URI prefixes / URI-prefix synonyms / unknown strings (resp. "
@@ -41,13 +41,8 @@ class C12(ProgramProperty):
                 vals.append("uniq" + str(len(vals)))
         return [[cps(k), cps(v)] for k, v in zip(keys, vals)]
 
-    def gen(self, rng, tier):
-        recs = gen.records(rng, ":", forbid_delim=False)
-        us = gen.all_uris(recs)
+    def build_steps(self, recs, rm, rw, uris):
         ps = gen.all_prefixes(recs)
-        rm = self._mapping(rng, us + ["http://unknown/", "zz"], us, allow_transitive=True)
-        rw = self._mapping(rng, ps + ["unknownprefix", "Q"], us, allow_transitive=False)
-        uris = gen.uri_probes(rng, recs, 4) + [uncps(v) + "7" for _, v in rm + rw]
         steps = [init_step(0, recs), q(0, "records"), q(0, "delimiter")]
         for u in uris:
             steps.append(q(0, "parse_uri", u))
@@ -64,6 +59,46 @@ class C12(ProgramProperty):
                 steps.append(q(c, "parse_uri", u))
             for p in ps[:5]:
                 steps.append(q(c, "expand_pair_all", p, "1"))
+        return steps
+
+    def exhaustive(self, tier):
+        """Every injective URI-prefix remapping and rewiring of 1-2 (thorough: 1-3) pairs over a small universe, on a fixed
+        three-record converter: canonical URI prefixes, synonyms, URI prefixes of other records and unknown strings as keys
+        and as values (transitive ones included)."""
+        import itertools
+        import multiprocessing as mp
+
+        recs = [rec("a", "http://a/", ["A"], ["http://a2/"]), rec("b", "http://b/"), rec("c", "http://c/", ["C"], ["http://c2/"])]
+        unames = ["http://a/", "http://a2/", "http://b/", "http://c/", "http://c2/", "http://x/", "http://y/"]
+        pnames = ["a", "A", "b", "c", "C", "x"]
+        uris = ["http://a/1", "http://a2/1", "http://b/1", "http://c2/1", "http://x/1"]
+        ps = gen.all_prefixes(recs)
+        maxn = 2 if tier == "quick" else 3
+        cases = []
+        for n in range(1, maxn + 1):
+            for vals in itertools.permutations(unames, n):               # injective: values pairwise different
+                for ukeys, pkeys in zip(itertools.permutations(unames, n), itertools.cycle(itertools.permutations(pnames, n))):
+                    rm = [[cps(k), cps(v)] for k, v in zip(ukeys, vals)]
+                    rw = [[cps(k), cps(v)] for k, v in zip(pkeys, vals)]
+                    cases.append({"steps": self.build_steps(recs, rm, rw, uris), "uris": uris, "prefixes": ps[:5],
+                                  "tags": ["small-scope"], "interesting": True})
+        chunks = [cases[i:i + 100] for i in range(0, len(cases), 100)]
+        bad = []
+        with mp.get_context("fork").Pool(16) as pool:
+            for b in pool.imap_unordered(_scope_worker, chunks):
+                bad.extend(b)
+        return {"n": len(cases), "bad": bad[:20], "complete": True,
+                "scope": f"every injective URI-prefix remapping of 1..{maxn} pairs over {len(unames)} URI-prefix strings (each paired "
+                         f"with a rewiring over {pnames} with the same values) on the converter a(A; a2) b c(C; c2): {len(cases)} cases"}
+
+    def gen(self, rng, tier):
+        recs = gen.records(rng, ":", forbid_delim=False)
+        us = gen.all_uris(recs)
+        ps = gen.all_prefixes(recs)
+        rm = self._mapping(rng, us + ["http://unknown/", "zz"], us, allow_transitive=True)
+        rw = self._mapping(rng, ps + ["unknownprefix", "Q"], us, allow_transitive=False)
+        uris = gen.uri_probes(rng, recs, 4) + [uncps(v) + "7" for _, v in rm + rw]
+        steps = self.build_steps(recs, rm, rw, uris)
         vals = {uncps(v) for _, v in rm + rw}
         tags = []
         if rng.random() < 0.35:
@@ -116,3 +151,10 @@ class C12(ProgramProperty):
 
 
 PROPERTY = C12()
+
+
+def _scope_worker(cases):
+    from .. import engine
+
+    res = engine.evaluate_cases(PROPERTY, cases)
+    return [r for r in res if r["diffs"] or r["fails"]][:5]
